@@ -69,7 +69,7 @@ CHECKS = {
  "C17": dict(
   category="exploration",
   technique="runtime trace monitor with marker injection: raw client / scripted peer over the instrumented in-process connection deliver injected plaintext after the STARTTLS line under every two-write split, one write and byte-at-a-time, then run a real crypto/tls handshake; recording stub backend and unilateral-data callbacks as observers; race detector on",
-  text="Server: 12 injected command suffixes x all splits x InsecureAuth on/off: no backend call or response (plaintext or inside TLS) may carry a marker, bytes after the tagged OK must be TLS records; credential policy matrix {TLS configuration, none} x InsecureAuth x {plain, SASL, basic sessions} x 5 ways of presenting credentials (greeting and CAPABILITY must not offer, backend must not be reached on plaintext unless InsecureAuth; offered and accepted over STARTTLS and implicit TLS). Client: 12 injected response suffixes x all splits x OK/PREAUTH/BYE greetings: no callback, capability, state change or command completion from injected bytes; PREAUTH and BYE refused. Positive controls without injection must complete the handshake and carry LOGIN/NOOP over TLS. OS transports: the credential policy again over a Unix-domain and a loopback TCP listener served by Server.Serve; DialStartTLS against a scripted loopback server that greets OK / PREAUTH (3 spellings), accepts STARTTLS and completes a real handshake (PREAUTH must be refused).",
+  text="Server: 12 injected command suffixes x all splits x InsecureAuth on/off: no backend call or response (plaintext or inside TLS) may carry a marker, bytes after the tagged OK must be TLS records; credential policy matrix {TLS configuration, none} x InsecureAuth x {plain, SASL, basic sessions} x 5 ways of presenting credentials (greeting and CAPABILITY must not offer, backend must not be reached on plaintext unless InsecureAuth; offered and accepted over STARTTLS and implicit TLS). Client: 12 injected response suffixes x all splits x OK/PREAUTH/BYE greetings: no callback, capability, state change or command completion from injected bytes; PREAUTH and BYE refused. Positive controls without injection must complete the handshake and carry LOGIN/NOOP over TLS. OS transports: the credential policy again over a Unix-domain and a loopback TCP listener served by Server.Serve; a ClientHello sent in the same segment as the STARTTLS line must yield a working TLS session; DialStartTLS against a scripted loopback server that greets OK / PREAUTH (3 spellings), accepts STARTTLS and completes a real handshake (PREAUTH must be refused).",
   design_ref="DESIGN.md §3 C17",
   note="Dropping the early plaintext is accepted as well as feeding it to the handshake. Trusts crypto/tls."),
 
@@ -83,14 +83,14 @@ CHECKS = {
  "C11": dict(
   category="exploration",
   technique="runtime monitoring of a real client fed hostile byte streams: recover()-guarded accessor walk over every returned value, reader-panic detection, worker processes with a 64 MB stack bound and heap guard (fatal errors attributed to the logged current stream), deterministic allocation counters on scaling families; race detector on",
-  text="Targeted invariant probes (with and without pending commands), grammar-generated responses of every kind the client parses with boundary numbers, byte/token mutations, raw garbage, 16 scaling families (8x range of N), truncated-literal probes (19 buffered-string positions x announced sizes 64 MiB..2^63-1 with 3 octets sent: allocation must follow the bytes received), must-reject probes (overflowing numbers, over-deep nesting incl. message/rfc822 chains) and deep-nesting probes to 10^6 levels, each against a client with 20 pending commands of every kind; the STARTTLS entry point (NewStartTLS) with 8 spellings of the answer x 14 trailers in the same segment plus generated / random trailers. Decides: no reader or accessor panic, no fatal recursion, no zero/dynamic numbers delivered without error, no super-linear allocation per input byte.",
+  text="Targeted invariant probes (with and without pending commands), grammar-generated responses of every kind the client parses with boundary numbers, byte/token mutations, raw garbage, 16 scaling families (8x range of N), truncated-literal probes (19 buffered-string positions x announced sizes 64 MiB..2^63-1 with 3 octets sent: allocation must follow the bytes received), must-reject probes (overflowing numbers, over-deep nesting incl. message/rfc822 chains) and deep-nesting probes to 10^6 levels, each against a client with 20 pending commands of every kind; probes without the leading message number and with data after UNAUTHENTICATE (one of 21 pending commands); the STARTTLS entry point (NewStartTLS) with 8 spellings of the answer x 14 trailers in the same segment plus generated / random trailers. Decides: no reader or accessor panic, no fatal recursion, no zero/dynamic numbers delivered without error, no super-linear allocation per input byte.",
   design_ref="DESIGN.md §3 C11",
   note="CPU time is recorded nowhere as a verdict (allocation counters only); set-enumerating accessors are called only for spans <= 2*10^6; one known finding (ESEARCH span) is listed in known_findings.json."),
 
  "C12": dict(
   category="exploration",
   technique="runtime trace monitor: scripted conformant server on the instrumented in-process connection; after every scripted line the vconn park signal (reader blocked with nothing pending) is the barrier at which Client.State()/Mailbox() are compared with a reference interpretation of the transcript; per-command exactly-once completion, status and data accounting; race detector on",
-  text="Random sets of 2..6 unambiguous pipelined commands with random outcomes (OK with/without text, NO/BAD with/without codes), answered in random order-preserving interleavings with unilateral EXISTS/EXPUNGE/FLAGS/PERMANENTFLAGS in between; state sequences around SELECT OK/NO/BAD, [CLOSED], UNSELECT/CLOSE, LOGOUT; tagged refusal of a synchronising literal with another command in flight; FETCH with '*' sets; long-lived connections of 1500..4000 commands answered in the empty forms FLAGS () / LIST () / PERMANENTFLAGS (); every fifth script with the server's response names, status conditions and response-code names in lower or mixed case; STATUS under case variants of the mailbox name; every script under a watchdog (a client call that never returns is a violation with the goroutine dump).",
+  text="Random sets of 2..6 unambiguous pipelined commands with random outcomes (OK with/without text, NO/BAD with/without codes), answered in random order-preserving interleavings with unilateral EXISTS/EXPUNGE/FLAGS/PERMANENTFLAGS in between; state sequences around SELECT OK/NO/BAD, [CLOSED], UNSELECT/CLOSE, LOGOUT; tagged refusal of a synchronising literal with another command in flight; FETCH with '*' sets; long-lived connections of 1500..4000 commands answered in the empty forms FLAGS () / LIST () / PERMANENTFLAGS (); every fifth script with the server's response names, status conditions and response-code names in lower or mixed case; STATUS under case variants of the mailbox name; 2..4 pipelined searches with RETURN options answered by ESEARCH in any order (TAG correlator); every script under a watchdog (a client call that never returns is a violation with the goroutine dump).",
   design_ref="DESIGN.md §3 C12",
   note="During a SELECT in progress the client may report either the old mailbox unchanged or no mailbox. Trusts the reference interpreter in checks/c12."),
 
@@ -117,7 +117,7 @@ CHECKS = {
  "C03": dict(
   category="exploration",
   technique="runtime oracle at the client API boundary: a stub backend writes generated response plans through the real server's writer API, the real client decodes them over an in-process connection, and every Wait/Collect result is compared field-by-field (literals byte-for-byte, order preserved) with the plan under an explicit normalisation table; race detector on",
-  text="Sessions of 40..60 commands (plus long-lived sessions of 2500..6000 commands on one connection): FETCH over all attribute subsets with envelopes (NIL / empty / group address lists, 8-bit and quoted-special text), body structures nested to depth 3 with message/rfc822 and text parts and extension data, body and binary literals of sizes {0,1,2,100,4095,4096,4097,70000}, BINARY.SIZE; STATUS all items; LIST attributes / delimiters / CHILDINFO / OLDNAME / LIST-STATUS pairing; SEARCH vs ESEARCH; SELECT data incl. IMAP4rev2 LIST; APPENDUID; COPYUID tagged and untagged (MOVE and its COPY fallback); EXPUNGE streams; a quarter of the fetches address the last message only through '*', 'n:*' or '*:n' with the message count tracked from the wire (EXISTS minus EXPUNGE, incl. those consumed by EXPUNGE / MOVE commands); NAMESPACE; capabilities x 3 server configurations x {nothing, UTF8=ACCEPT, IMAP4rev2} enabled.",
+  text="Sessions of 40..60 commands (plus long-lived sessions of 2500..6000 commands on one connection): FETCH over all attribute subsets with envelopes (NIL / empty / group address lists, 8-bit and quoted-special text), body structures nested to depth 3 with message/rfc822 and text parts and extension data, body and binary literals of sizes {0,1,2,100,4095,4096,4097,70000}, BINARY.SIZE; STATUS all items; LIST attributes / delimiters / CHILDINFO / OLDNAME / LIST-STATUS pairing; SEARCH vs ESEARCH; SELECT data incl. IMAP4rev2 LIST; APPENDUID; COPYUID tagged and untagged (MOVE and its COPY fallback); EXPUNGE streams; groups of 3..5 pipelined searches all in flight before the backend answers the first; a quarter of the fetches address the last message only through '*', 'n:*' or '*:n' with the message count tracked from the wire (EXISTS minus EXPUNGE, incl. those consumed by EXPUNGE / MOVE commands); NAMESPACE; capabilities x 3 server configurations x {nothing, UTF8=ACCEPT, IMAP4rev2} enabled.",
   design_ref="DESIGN.md §3 C03",
   note="Only data the wire format can carry is demanded (normalisation listed in the evidence assumptions); the server's encoder is the producer, so server-side encoding defects that the client happens to tolerate are seen only when the decoded value differs."),
  "C08": dict(
